@@ -106,6 +106,31 @@ def h_stream(env):
         env.check("complete-message-available", cut >= ends[i], "message %d returned although the stream was cut at %d < %d" % (i, cut, ends[i]))
 
 
+def h_frame(env):
+    """one message of any catalogue shape written twice as a delimited frame: each frame is varint(len(bytes)) + bytes, and both are read back"""
+    import betterproto
+
+    from .. import shapes
+    from ..spec import specmsg as sm, specwire as sw
+
+    cat = catalogue.get(env.params["cat"])
+    mod = shapes.build_bp(cat)
+    val = shapes.gen_value(env, cat, "M", b=shapes.Bounds(rep=1, mapn=1, strlen=1, depth=2, narrow=True))
+    m = sm.to_bp(mod, cat, "M", val)
+    data = bytes(m)
+    env.observe("bytes", data)
+    out = betterproto.BytesIO()
+    m.dump(out, betterproto.SIZE_DELIMITED)
+    m.dump(out, betterproto.SIZE_DELIMITED)
+    frame = sw.length_prefixed(data)
+    env.check("frame==varint(len)+bytes", out.getvalue() == frame + frame)
+    rd = betterproto.BytesIO(out.getvalue())
+    a = mod.M().load(rd, betterproto.SIZE_DELIMITED)
+    b = mod.M().load(rd, betterproto.SIZE_DELIMITED)
+    env.check("both-frames-read-back", sym.sym_and(a == m, b == m, bytes(a) == data, bytes(b) == data))
+    env.check("stream-consumed-exactly", rd.tell() == 2 * len(frame))
+
+
 def units(tier):
     seqs = [["A"], ["Empty"], ["B"], ["A", "B"], ["Empty", "A"], ["B", "Empty"], ["A", "A"]]
     if tier == "thorough":
@@ -127,6 +152,11 @@ def units(tier):
 
     for name in ("packed", "repmsg", "mapmsg"):
         u.append(("delimited-after-in-place-edit[s2 %s]" % name, h_len_after_edit, {"cat": ["s2", name]}))
+    for name in ("optionals", "oneofs", "emptymsg", "nested-oneof", "mapmsg", "mixed", "wrappers"):
+        u.append(("frame[s2 %s]" % name, h_frame, {"cat": ["s2", name]}))
+    for kind in ("string", "bytes", "message", "enum", "double"):
+        for label in ("optional", "oneof"):
+            u.append(("frame[s1 %s %s]" % (kind, label), h_frame, {"cat": ["s1", kind, label]}))
     return u
 
 
